@@ -3,6 +3,7 @@ package values
 import (
 	"encoding/json"
 	"fmt"
+	"math"
 	"reflect"
 	"strconv"
 	"time"
@@ -72,6 +73,25 @@ func convertValueToFloat(value any, typ reflect.Type) (float64, error) {
 		return v, nil
 	}
 	return 0, conversionError("", value, typ)
+}
+
+// Sprint formats a value the way an object prints it: like fmt.Sprint, except that a float
+// holding a whole number prints its digits (fmt switches to exponent form from 1e+06 on,
+// so 1000 | times: 1000 would print as 1e+06).
+func Sprint(value any) string {
+	var f float64
+	switch v := value.(type) {
+	case float64:
+		f = v
+	case float32:
+		f = float64(v)
+	default:
+		return fmt.Sprint(value)
+	}
+	if f == math.Trunc(f) && math.Abs(f) < 1e15 {
+		return strconv.FormatFloat(f, 'f', -1, 64)
+	}
+	return fmt.Sprint(value)
 }
 
 // Convert value to the type. This is a more aggressive conversion, that will
@@ -234,7 +254,7 @@ func Convert(value any, typ reflect.Type) (any, error) { //nolint: gocyclo
 		case fmt.Stringer:
 			return value.String(), nil
 		default:
-			return fmt.Sprint(value), nil
+			return Sprint(value), nil
 		}
 	}
 	return nil, conversionError("", value, typ)
